@@ -247,8 +247,10 @@ func runC16(w *c16World) ([]string, error) {
 		f.Checksum = f.ChecksumFor(hbLay.CRCExtra)
 		pipes[0].Feed(f.Bytes())
 		ardu[key{0, sys, comp}] = true
-		if j%64 == 63 {
-			pipes[0].WaitDrained(bound)
+		// the answers (seven per sender) go through the channel's bounded queue: let them reach the wire
+		// before the next senders speak, a queue overflow is not what this is about
+		if srActive && j%4 == 3 {
+			pipes[0].WaitWrites(7*(j+1)-14, bound)
 		}
 	}
 	for r := 0; r < maxRepeat; r++ {
